@@ -245,6 +245,81 @@ def flatten_grow(view):
     return fl.regs, steps, toks_text(f.body_toks)
 
 
+def flatten_size(view):
+    """wasmMemorySize(memory) → (register names, steps, source text); register 0 is reserved (unused argument slot)"""
+    fs = view.funcs()
+    if "wasmMemorySize" not in fs:
+        raise ExtractFail(W, "wasmMemorySize not found (memory.size must go through a header function that takes "
+                             "the lock of a shared memory)")
+    f = fs["wasmMemorySize"]
+    where = f"{W}:{f.line}"
+    if [t.text for t in f.ret if t.text == "U32"] != ["U32"]:
+        raise ExtractFail(where, "wasmMemorySize does not return U32")
+    mem, params = parse_params(f, where)
+    if mem is None or params:
+        raise ExtractFail(where, "wasmMemorySize(wasmMemory*) expected")
+    fl = Flattener(where, mem, [("%arg", "u32")])
+    steps = fl.stmts(body_items(f, where))
+    if not steps or not steps[-1].startswith(".ret"):
+        raise ExtractFail(where, "wasmMemorySize does not end in a return")
+    check_locked_reads(steps, where, "wasmMemorySize")
+    return fl.regs, steps, toks_text(f.body_toks)
+
+
+def check_locked_reads(steps, where, fname):
+    """Walk every path of the flattened steps for a SHARED memory (`read r .shared` yields 1) and fail on a read
+    of pages/size outside lock…unlock (the same discipline `ReadsUnderLock` decides in Lean)."""
+    import re
+
+    def walk(pc, held, known, depth):
+        if depth > 4 * len(steps) + 8:
+            raise ExtractFail(where, f"{fname}: path does not terminate")
+        if pc >= len(steps):
+            raise ExtractFail(where, f"{fname}: falls off the end")
+        st = steps[pc]
+        m = re.match(r"\.read (\d+) \.(\w+)", st)
+        if m:
+            r, f = int(m.group(1)), m.group(2)
+            if f in ("pages", "size") and not held:
+                raise ExtractFail(where, f"{fname}: `memory->{f}` of a shared memory is read without the lock (step {pc})")
+            k2 = dict(known)
+            if f == "shared":
+                k2[r] = 1
+            else:
+                k2.pop(r, None)
+            return walk(pc + 1, held, k2, depth + 1)
+        m = re.match(r"\.brUnless \(\.(reg|lit) (\d+)\) (\d+)", st)
+        if m:
+            kind, v, k = m.group(1), int(m.group(2)), int(m.group(3))
+            val = v if kind == "lit" else known.get(v)
+            if val is None:
+                walk(pc + 1, held, known, depth + 1)
+                return walk(pc + 1 + k, held, known, depth + 1)
+            return walk(pc + 1 if val != 0 else pc + 1 + k, held, known, depth + 1)
+        m = re.match(r"\.brUnless .* (\d+)$", st)
+        if m:
+            walk(pc + 1, held, known, depth + 1)
+            return walk(pc + 1 + int(m.group(1)), held, known, depth + 1)
+        if st == ".lock":
+            return walk(pc + 1, True, known, depth + 1)
+        if st == ".unlock":
+            return walk(pc + 1, False, known, depth + 1)
+        if st.startswith(".ret"):
+            if held:
+                raise ExtractFail(where, f"{fname}: returns with the mutex held (step {pc})")
+            return
+        if st == ".abort":
+            return
+        m = re.match(r"\.set (\d+) ", st)
+        if m:
+            k2 = dict(known)
+            k2.pop(int(m.group(1)), None)
+            return walk(pc + 1, held, k2, depth + 1)
+        return walk(pc + 1, held, known, depth + 1)
+
+    walk(0, False, {}, 0)
+
+
 def alloc_parts(view):
     fs = view.funcs()
     if "wasmMemoryAllocate" not in fs:
@@ -288,6 +363,7 @@ def generate(repo):
     hdr = os.path.join(repo, "w2c2", "w2c2_base.h")
     view = gen_macros.HeaderView(hdr, gen_macros.configs()["le"])
     regs, steps, src = flatten_grow(view)
+    sregs, ssteps, ssrc = flatten_size(view)
     aregs, asize, ainits = alloc_parts(view)
     out = ["-- GENERATED by tools/extract/gen_memfuncs.py from /repo/w2c2/w2c2_base.h — do not edit.",
            "import W2c2Verif.Model.ConcBase",
@@ -303,6 +379,14 @@ def generate(repo):
            "def growSteps : List MStep := ["]
     out.append(",\n".join(f"  /- {i:2d} -/ {s}" for i, s in enumerate(steps)))
     out += ["]", "",
+            "/-- registers of `wasmMemorySize` (register 0 is an unused argument slot) -/",
+            "def sizeRegs : List String := [" + ", ".join(lean_str(r) for r in sregs) + "]",
+            "",
+            "/-- `wasmMemorySize` body — what c.c emits for memory.size is a call of it:",
+            "    `" + ssrc.replace("-/", "- /") + "` -/",
+            "def sizeSteps : List MStep := [",
+            ",\n".join(f"  /- {i:2d} -/ {s_}" for i, s_ in enumerate(ssteps)),
+            "]", "",
             "/-- registers of `wasmMemoryAllocate` -/",
             "def allocRegs : List String := [" + ", ".join(lean_str(r) for r in aregs) + "]",
             "/-- `const U32 size = …` of `wasmMemoryAllocate` -/",
